@@ -227,4 +227,6 @@ def check(chk):
     chk.rule('C14.retry', 'a same-host retry that was sent is not followed by another send of the same request (the stream id 0 is a stream id)')
     chk.borrow('C17', {'C17.retry': 'C14.retry'}, 'the request is sent twice for one retry decision: both sends are answered and the outcome is delivered twice')
     chk.borrow('C10', {'C10.swap': 'C14.conn'}, 'a request failed twice by its dying connection is retried twice: callback and errback (or the callback twice) run for one execution')
+    chk.rule('C14.timer', 'with a finite timeout every path of _start_timer leaves a timer armed (shared with C15.arm): a silent server otherwise yields no outcome at all')
+    chk.borrow('C15', {'C15.arm': 'C14.timer'}, 'the future is left without any timer: it never completes, neither callback nor errback runs')
     chk.borrow('C20', {'C20.complete': 'C14.use'}, 'the request\'s outcome callback can run more than once or never')
